@@ -4,6 +4,7 @@ package vc
 
 import (
 	"fmt"
+	"regexp"
 	"go/ast"
 	"go/token"
 	"go/types"
@@ -616,8 +617,12 @@ func (c *Ctx) resolveGoType(name string) types.Type {
 func (c *Ctx) bindVar(b SBinder, tag string) (*Val, []Term) {
 	v, ts := c.bindVar0(b, tag)
 	if tag == "q" || tag == "m" || tag == "a" {
+		if c.boundSorts == nil {
+			c.boundSorts = map[string]Sort{}
+		}
 		for _, t := range ts {
 			c.boundNames = append(c.boundNames, t.S)
+			c.boundSorts[t.S] = t.Sort
 		}
 	}
 	return v, ts
@@ -637,6 +642,23 @@ func (c *Ctx) capturesBound(s string, except []Term) bool {
 		}
 	}
 	return false
+}
+
+var rePh = regexp.MustCompile(`ph!(\d+)!\d+`)
+var reQ = regexp.MustCompile(`!q\d+`)
+
+// normPh makes cache keys independent of the unique numbers of placeholder and bound variable names.
+func normPh(s string) string {
+	return reQ.ReplaceAllString(rePh.ReplaceAllString(s, "ph!$1"), "!q")
+}
+
+func hashStr(s string) string {
+	h := uint64(1469598103934665603)
+	for i := 0; i < len(s); i++ {
+		h ^= uint64(s[i])
+		h *= 1099511628211
+	}
+	return fmt.Sprintf("%x", h)
 }
 
 // containsSym: s mentions the symbol n as a whole token.
@@ -698,20 +720,49 @@ func (c *Ctx) specLambda(x *SQuant) *Val {
 	if body.K != VScalar {
 		c.refuse("lambda body must be scalar")
 	}
-	if c.capturesBound(body.T.S, ts) {
-		c.refuse("lambda body depends on an enclosing bound variable: %s", body.T.S)
+	// enclosing bound variables the body depends on become extra (outer) dimensions of the array
+	var caps []Term
+	for _, n := range c.boundNames {
+		if n != ts[0].S && containsSym(body.T.S, n) {
+			caps = append(caps, Term{S: n, Sort: c.boundSorts[n]})
+		}
 	}
 	key := strings.ReplaceAll(body.T.S, ts[0].S, "!L")
+	for i, cp := range caps {
+		key = strings.ReplaceAll(key, cp.S, fmt.Sprintf("!C%d", i))
+	}
+	key = normPh(key)
 	if c.lambdaCache == nil {
 		c.lambdaCache = map[string]Term{}
 	}
-	if a, ok := c.lambdaCache[key]; ok {
-		return &Val{K: VLogic, T: a}
+	a, ok := c.lambdaCache[key]
+	if !ok && c.phDepth > 0 {
+		sort := ArrSort(SInt, body.T.Sort)
+		for i := len(caps) - 1; i >= 0; i-- {
+			sort = ArrSort(caps[i].Sort, sort)
+		}
+		a = Term{S: "lam?" + fmt.Sprint(len(key)) + "?" + hashStr(key), Sort: sort}
+		ok = true
 	}
-	a := c.fresh("lam", ArrSort(SInt, body.T.Sort))
-	c.lambdaCache[key] = a
-	c.define(Forall(ts, StructEq(Select(a, ts[0]), body.T), []Term{Select(a, ts[0])}))
-	return &Val{K: VLogic, T: a}
+	if !ok {
+		sort := ArrSort(SInt, body.T.Sort)
+		for i := len(caps) - 1; i >= 0; i-- {
+			sort = ArrSort(caps[i].Sort, sort)
+		}
+		a = c.fresh("lam", sort)
+		c.lambdaCache[key] = a
+		sel := a
+		for _, cp := range caps {
+			sel = Select(sel, cp)
+		}
+		vars := append(append([]Term{}, caps...), ts[0])
+		c.define(Forall(vars, StructEq(Select(sel, ts[0]), body.T), []Term{Select(sel, ts[0])}))
+	}
+	out := a
+	for _, cp := range caps {
+		out = Select(out, cp)
+	}
+	return &Val{K: VLogic, T: out}
 }
 
 func (c *Ctx) specQuant(x *SQuant) *Val {
@@ -1192,6 +1243,94 @@ func (c *Ctx) applySpecFun(pi *PkgInfo, sf *SpecFun, args []*Val) *Val {
 	c.specDepth++
 	defer func() { c.specDepth-- }()
 	c.bound = env
+	if !sf.View && c.isOpaqueHere(pi, sf) {
+		// a name for the function in the current state: an uninterpreted symbol applied to the arguments.
+		// The state is identified by the expansion of the body over placeholder arguments.
+		penv := &specEnv{vars: map[string]*Val{}}
+		var ph []Term
+		ok := true
+		for i, p := range sf.Params {
+			a := env.vars[p.Name]
+			if a.K != VScalar && a.K != VLogic {
+				ok = false
+				break
+			}
+			c.nbound++
+			t := Term{S: fmt.Sprintf("ph!%d!%d", i, c.nbound), Sort: a.T.Sort}
+			na := *a
+			na.T = t
+			penv.vars[p.Name] = &na
+			ph = append(ph, t)
+		}
+		if ok {
+			c.bound = penv
+			n0 := len(c.St.Path)
+			nd := len(c.defs)
+			c.phDepth++
+			b := c.evalSpec(sf.Body)
+			c.phDepth--
+			c.St.Path = filterPath(c.St.Path, n0, ph)
+			// definitions created while expanding over placeholders are not needed either
+			var keepDefs []Term
+			for j, d := range c.defs {
+				bad := false
+				if j >= nd {
+					for _, t := range ph {
+						if containsSym(d.S, t.S) {
+							bad = true
+						}
+					}
+				}
+				if !bad {
+					keepDefs = append(keepDefs, d)
+				}
+			}
+			c.defs = keepDefs
+			c.bound = env
+			if b.K == VScalar || b.K == VLogic {
+				key := b.T.S
+				for i, t := range ph {
+					key = strings.ReplaceAll(key, t.S, fmt.Sprintf("!P%d", i))
+				}
+				key = "opqf:" + sf.Name + ":" + normPh(key)
+				if c.lambdaCache == nil {
+					c.lambdaCache = map[string]Term{}
+				}
+				f, have := c.lambdaCache[key]
+				if !have {
+					c.nfresh++
+					name := fmt.Sprintf("o$%s!%d", sanitize(sf.Name), c.nfresh)
+					var as []Sort
+					for _, t := range ph {
+						as = append(as, t.Sort)
+					}
+					rs := b.T.Sort
+					if sf.Ret != "" {
+						if _, s2 := c.specSort(sf.Ret); s2 != "" {
+							rs = s2
+						}
+					}
+					c.declareFun(name, as, rs)
+					f = Term{S: name, Sort: rs}
+					c.lambdaCache[key] = f
+				}
+				var actual []Term
+				for _, p := range sf.Params {
+					actual = append(actual, env.vars[p.Name].T)
+				}
+				r := App(f.Sort, f.S, actual...)
+				if f.Sort.IsArray() {
+					return &Val{K: VLogic, T: r}
+				}
+				var rt types.Type
+				if sf.Ret != "" {
+					rt, _ = c.specSort(sf.Ret)
+				}
+				return Scalar(r, rt)
+			}
+		}
+		c.bound = env
+	}
 	if sf.View {
 		// evaluate the body over a canonical bound variable for the last parameter, name the resulting
 		// function of that variable by a logical array, and select the actual argument from it
@@ -1214,15 +1353,25 @@ func (c *Ctx) applySpecFun(pi *PkgInfo, sf *SpecFun, args []*Val) *Val {
 			v := c.evalSpec(sf.Body)
 			return v
 		}
-		key := strings.ReplaceAll(body.T.S, ts[0].S, "!L")
+		key := normPh(strings.ReplaceAll(body.T.S, ts[0].S, "!L"))
 		if c.lambdaCache == nil {
 			c.lambdaCache = map[string]Term{}
 		}
 		a, ok := c.lambdaCache[key]
+		if ok && c.phDepth > 0 {
+			// inside a placeholder expansion the array only serves to compute the state key
+		}
+		if !ok && c.phDepth > 0 {
+			// expansion over placeholder arguments: a canonical name, never defined or declared for the solver
+			a = Term{S: "v$" + sf.Name + "?" + fmt.Sprint(len(key)) + "?" + hashStr(key), Sort: ArrSort(ts[0].Sort, body.T.Sort)}
+			ok = true
+		}
 		if !ok {
 			a = c.fresh("v$"+sf.Name, ArrSort(ts[0].Sort, body.T.Sort))
 			c.lambdaCache[key] = a
-			c.define(Forall(ts, StructEq(Select(a, ts[0]), body.T), []Term{Select(a, ts[0])}))
+			if !c.isOpaqueHere(pi, sf) {
+				c.define(Forall(ts, StructEq(Select(a, ts[0]), body.T), []Term{Select(a, ts[0])}))
+			}
 		}
 		return Scalar(Select(a, actual.T), body.Typ)
 	}
@@ -1236,6 +1385,14 @@ func (c *Ctx) applySpecFun(pi *PkgInfo, sf *SpecFun, args []*Val) *Val {
 		}
 	}
 	return v
+}
+
+// isOpaqueHere: the spec function is declared opaque and the function under verification lives in another package.
+func (c *Ctx) isOpaqueHere(pi *PkgInfo, sf *SpecFun) bool {
+	if !sf.Opaque {
+		return false
+	}
+	return c.Pkg != nil && c.Pkg != pi && c.Pkg.Name != "prelude"
 }
 
 var _ = ast.NewIdent
